@@ -16,13 +16,13 @@ from harness.core import q, z, zlit, coq_list, coq_bool, coq_opt
 
 PID = "C18"
 GEN_GROUPS = ["Analysis", "Battery"]
-TARGETS = ["coq/Props/C18.vo", "coq/Model/AnalysisQ.vo"]
+TARGETS = ["coq/Props/C18.vo", "coq/Model/AnalysisQc.vo"]
 CASES = {"quick": 160, "thorough": 2000}
 SHARD = 10
 CORR_HEADER = ("From Coq Require Import ZArith QArith List.\n"
-               "From ACN Require Import Base.Num Model.Ledger Model.LedgerQ Model.Analysis Model.AnalysisQ.\n"
+               "From ACN Require Import Base.Num Model.Ledger Model.LedgerQ Model.Analysis Model.AnalysisQ Model.AnalysisQc.\n"
                "Import ListNotations.\nOpen Scope Q_scope.\n")
-CHECK_FN = "check_c18"
+CHECK_FN = "check_c18_qc"      # the canonical-rational instance: the model of the axiom-free theorems
 RULE = ("one case = one completed Simulator.run() (C02 generator: 1-6 stations, voltages 120/208/240/277, mixed battery "
         "classes, period 1/5/15/0.5/7.5 minutes and fractional-second / float-inexact periods 4.1, 0.1, 1/3, 2.3, 12.5/60, 0.025, 8.2, ...) on a network with 1-5 constraints built from Current objects (three-phase groups on "
         "phases 30/-90/150 and arbitrary angles, signed / fractional / scaled coefficients), then every analysis function: "
